@@ -4,11 +4,14 @@
 package main
 
 import (
+	"encoding/json"
 	"fmt"
 	"strings"
 	"time"
 
+	"github.com/AliceO2Group/Control/common/event"
 	pb "github.com/AliceO2Group/Control/core/protos"
+	occpb "github.com/AliceO2Group/Control/executor/protos"
 	"github.com/AliceO2Group/Control/verif_h/coresim"
 	vrt "github.com/AliceO2Group/Control/verif_vrt"
 	mesos "github.com/mesos/mesos-go/api/v1/lib"
@@ -239,20 +242,27 @@ type conc struct {
 	setup []string
 	a, b  []string
 	kill  bool // additionally: the critical task dies (watcher's delayed GO_ERROR)
+	// internalErr: instead of dying, the critical task reports TASK_INTERNAL_ERROR and goes on answering
+	// (the core stops the run itself and the watcher schedules its delayed GO_ERROR); slowStop: the
+	// before_STOP_ACTIVITY call takes a virtual second, so the watcher's timer lands inside the STOP
+	internalErr, slowStop bool
 }
 
 var concs = []conc{
-	{"START||RESET", nil, []string{"START_ACTIVITY"}, []string{"RESET"}, false},
-	{"START||START", nil, []string{"START_ACTIVITY"}, []string{"START_ACTIVITY"}, false},
-	{"START||destroy", nil, []string{"START_ACTIVITY"}, []string{"destroyForce"}, false},
-	{"STOP||destroyAllowRunning", []string{"START_ACTIVITY"}, []string{"STOP_ACTIVITY"}, []string{"destroyAllowRunning"}, false},
-	{"START!||RESET", nil, []string{"START_ACTIVITY!"}, []string{"RESET"}, false},
-	{"destroy||destroy", nil, []string{"destroy"}, []string{"destroy"}, false},
-	{"destroyForce||destroyForce", []string{"START_ACTIVITY"}, []string{"destroyForce"}, []string{"destroyForce"}, false},
-	{"RESET||destroy", nil, []string{"RESET"}, []string{"destroy"}, false},
-	{"taskdies||STOP", []string{"START_ACTIVITY"}, []string{"STOP_ACTIVITY"}, nil, true},
-	{"taskdies||destroy", []string{"START_ACTIVITY"}, []string{"destroyForce"}, nil, true},
-	{"taskdies-idle", []string{"START_ACTIVITY"}, nil, nil, true},
+	{"START||RESET", nil, []string{"START_ACTIVITY"}, []string{"RESET"}, false, false, false},
+	{"START||START", nil, []string{"START_ACTIVITY"}, []string{"START_ACTIVITY"}, false, false, false},
+	{"START||destroy", nil, []string{"START_ACTIVITY"}, []string{"destroyForce"}, false, false, false},
+	{"STOP||destroyAllowRunning", []string{"START_ACTIVITY"}, []string{"STOP_ACTIVITY"}, []string{"destroyAllowRunning"}, false, false, false},
+	{"START!||RESET", nil, []string{"START_ACTIVITY!"}, []string{"RESET"}, false, false, false},
+	{"destroy||destroy", nil, []string{"destroy"}, []string{"destroy"}, false, false, false},
+	{"destroyForce||destroyForce", []string{"START_ACTIVITY"}, []string{"destroyForce"}, []string{"destroyForce"}, false, false, false},
+	{"RESET||destroy", nil, []string{"RESET"}, []string{"destroy"}, false, false, false},
+	{"taskdies||STOP", []string{"START_ACTIVITY"}, []string{"STOP_ACTIVITY"}, nil, true, false, false},
+	{"taskdies||destroy", []string{"START_ACTIVITY"}, []string{"destroyForce"}, nil, true, false, false},
+	{"taskdies-idle", []string{"START_ACTIVITY"}, nil, nil, true, false, false},
+	{"internal-error-slow-stop", []string{"START_ACTIVITY"}, nil, nil, true, true, true},
+	{"internal-error||STOP-slow", []string{"START_ACTIVITY"}, []string{"STOP_ACTIVITY"}, nil, true, true, true},
+	{"taskdies||STOP-slow", []string{"START_ACTIVITY"}, []string{"STOP_ACTIVITY"}, nil, true, false, true},
 }
 
 func concScenario(c conc, q, t vrt.Bounds) *vrt.Scenario {
@@ -273,6 +283,10 @@ func concScenario(c conc, q, t vrt.Bounds) *vrt.Scenario {
 			}
 			hooks0 := len(coresim.CallLog)
 			_ = hooks0
+			delete(coresim.CallDelay, "b-STOP_ACTIVITY")
+			if c.slowStop {
+				coresim.CallDelay["b-STOP_ACTIVITY"] = time.Second
+			}
 			var wg vrt.WaitGroup
 			run := func(name string, opl []string) {
 				if len(opl) == 0 {
@@ -301,6 +315,16 @@ func concScenario(c conc, q, t vrt.Bounds) *vrt.Scenario {
 				wg.Add(1)
 				vrt.GoFG("failure", func() {
 					for _, t := range s.w.M.AliveTasks() {
+						if c.internalErr {
+							de := event.NewDeviceEvent(event.DeviceEventOrigin{AgentId: mesos.AgentID{Value: t.AgentID},
+								ExecutorId: mesos.ExecutorID{Value: t.ExecutorID}, TaskId: mesos.TaskID{Value: t.ID}}, occpb.DeviceEventType_TASK_INTERNAL_ERROR)
+							de.SetLabels(map[string]string{"detector": "TST", "environmentId": s.id})
+							b, _ := json.Marshal(de)
+							payload := map[string]any{}
+							_ = json.Unmarshal(b, &payload)
+							s.w.M.DeviceEvent(t, payload)
+							continue
+						}
 						s.w.M.FailTask(t, mesos.TASK_FAILED)
 					}
 					done++
